@@ -174,15 +174,18 @@ func (c *conn) sread() (f *Frag, err error) {
 		return f, nil
 	}
 
+	// a fragment whose request has already been completed (by an error on a sibling fragment or by a
+	// timeout) is finished: its late reply, also a redirect, is dropped - the request object may
+	// have been released already
+	if f.Done {
+		logging.Warnf("[%dm|%df][%dc|%ds] frag already done, req: %s, res: %s", f.MsgId(), f.Id, f.OwnerFd(), c.fd, f.ReqString(), f.RspBodyString())
+		return nil, codec.Continue
+	}
+
 	switch f.Type {
 	case codec.RspMoved, codec.RspAsk:
 		logging.Warnf("[%dm|%df][%dc|%ds] got res: %s", f.MsgId(), f.Id, f.OwnerFd(), c.fd, f.RspBodyString())
 		return f, codec.MovedOrAsk
-	}
-
-	if f.Done {
-		logging.Warnf("[%dm|%df][%dc|%ds] frag already done, req: %s, res: %s", f.MsgId(), f.Id, f.OwnerFd(), c.fd, f.ReqString(), f.RspBodyString())
-		return nil, codec.Continue
 	}
 
 	f.slowLogCheck(c)
